@@ -45,7 +45,7 @@ theorem encoderRun_eq : encoderRun = encoderRunExpected := rfl
 
 /-- `handleSample`: Encode, error → return -/
 def encoderHandleSampleExpected : String :=
-  "func($0 SampleEncoder, $1 core.Sample) error {$0.Encode if($2 != nil){return(errors.WithMessage($2, \"sample encode failed\"))} coreutil.ReturnSampleIfBorrowed return(nil)}"
+  "func($0 SampleEncoder, $1 core.Sample) error {$0.Encode if($2 != nil){return(errors.WithMessage($2, \"…\"))} coreutil.ReturnSampleIfBorrowed return(nil)}"
 theorem encoderHandleSample_eq : encoderHandleSample = encoderHandleSampleExpected := rfl
 
 /-- `jsonEncoder.Encode`: the value, then the raw line terminator -/
@@ -100,7 +100,7 @@ theorem engineWait_eq : engineWait = engineWaitExpected := rfl
 
 /-- `Engine.Run`: one goroutine per pool runs `pool.Run(ctx)` and offers its result on `runRes` (or drops it when the engine's context is done); the loop receives exactly `len(Pools)` results, returns at the first non-nil one or when the context is done, and `nil` only after all of them were nil — model `C06Engine` `.poolSend/.engRecv/.engCtxDone` -/
 def engineRunExpected : String :=
-  "func($0 context.Context) error {ctx($0, $1 <- $0) defer{$1} range($2.config.Pools){if($3.ID == \"\"){set($3.ID=fmt.Sprintf(\"pool_%v\", $4))} $2.wait.Add newPool go{$5.Run($0) select{case $6 <- poolRunResult{ID: $5.ID, Err: $7}:{} case <-$0.Done():{}}}} for($8 < len($2.config.Pools); $8++){select{case $9 := <-$6:{if($9.Err != nil){select{case <-$0.Done():{return($0.Err())} default:{}} return(errors.WithMessage($9.Err, fmt.Sprintf(\"%q pool run failed\", $9.ID)))}} case <-$0.Done():{return($0.Err())}}} return(nil)}"
+  "func($0 context.Context) error {ctx($0, $1 <- $0) defer{$1} range($2.config.Pools){if($3.ID == \"\"){set($3.ID=…)} $2.wait.Add newPool go{$4.Run($0) select{case $5 <- poolRunResult{ID: $4.ID, Err: $6}:{} case <-$0.Done():{}}}} for($7 < len($2.config.Pools); $7++){select{case $8 := <-$5:{if($8.Err != nil){select{case <-$0.Done():{return($0.Err())} default:{}} return(errors.WithMessage($8.Err, fmt.Sprintf(\"…\", $8.ID)))}} case <-$0.Done():{return($0.Err())}}} return(nil)}"
 theorem engineRun_eq : engineRun = engineRunExpected := rfl
 
 /-- `instancePool.Run`: after `awaitRunAsync` the only `return nil` is under `case err, ok := <-awaitErr` with `!ok` — the channel was closed, which `awaitRunAsync` does after `awaitRun` returned; the context case returns `ctx.Err()` — model `C06Engine` `.poolRetClosed/.poolRetErr/.poolRetCtx` -/
@@ -162,6 +162,26 @@ theorem cliRunEngine_eq : cliRunEngine = cliRunEngineExpected := rfl
 def cliReadConfigAndRunEngineExpected : String :=
   "func() {flag.Args readConfig newLogger startMonitoring defer{$0} newEngineMetrics startReport engine.New ctx($1, $2 <- context.Background()) defer{$2} go{runEngine($1)} awaitPandoraTermination($2)}"
 theorem cliReadConfigAndRunEngine_eq : cliReadConfigAndRunEngine = cliReadConfigAndRunEngineExpected := rfl
+
+/-- `phoutAggregator.handle`: encode into the reused line buffer, terminator, `writer.Write`, reset the buffer, and only THEN hand the sample back to the pool; the write error is returned — model `St.handle`, `C06SinkFail.handle` -/
+def phoutHandleExpected : String :=
+  "func($0 *Sample) error {appendPhout set($1.buf=append($1.buf, '\\n')) $1.writer.Write set($1.buf=$1.buf[:0]) releaseSample return($2)}"
+theorem phoutHandle_eq : phoutHandle = phoutHandleExpected := rfl
+
+/-- `Acquire`: a pooled sample is overwritten as a whole (`*s = Sample{…}`): id, all ten fields and the error read as zero on a sample a gun gets — what `Model.Phout.Sample` values built by setters assume -/
+def sampleAcquireExpected : String :=
+  "func($0 string) *Sample {samplePool.Get time.Now set(*$1=Sample{ timeStamp: time.Now(), tags: $0, }) return($1)}"
+theorem sampleAcquire_eq : sampleAcquire = sampleAcquireExpected := rfl
+
+/-- `releaseSample`: back into the pool -/
+def sampleReleaseExpected : String :=
+  "func($0 *Sample) {samplePool.Put}"
+theorem sampleRelease_eq : sampleRelease = sampleReleaseExpected := rfl
+
+/-- `DiscardedShootSample`: a fresh sample (not from the pool) with the current time and the 777 net code — what `instance.Run` reports for an overdue token -/
+def sampleDiscardedExpected : String :=
+  "func() *Sample {time.Now $0.SetUserNet return($0)}"
+theorem sampleDiscarded_eq : sampleDiscarded = sampleDiscardedExpected := rfl
 
 /-- the file sink opens write-only, creates, TRUNCATES (a result file never keeps lines of an earlier run), does
 not append; permission 0644 -/
